@@ -26,6 +26,15 @@ func GoEnv() []string {
 	return env
 }
 
+// ModArgs returns the -modfile argument for go commands building the harness when the
+// check runs against a scratch copy of the repository (VERIF_REPO + VERIF_MODFILE).
+func ModArgs() []string {
+	if m := os.Getenv("VERIF_MODFILE"); m != "" {
+		return []string{"-modfile=" + m}
+	}
+	return nil
+}
+
 // Scratch creates a per-run scratch directory; the caller removes it.
 func Scratch(id string) string {
 	base := os.Getenv("VERIF_SCRATCH")
